@@ -65,7 +65,7 @@ def make_sender(w, case, out):
     pace = case.get('pace')
     msg = case.get('msg', MSS)
     flow = Flow(flow_id=case.get('fid', 1), src='h0', dst='h1', start_time=case.get('start', 0) or None,
-                finish_time=case.get('finish', 1e12), size=size,
+                finish_time=None if case.get('no_finish') else case.get('finish', 1e12), size=size,
                 arrival_dist=(lambda: pace) if pace else None, size_dist=(lambda: msg) if pace else None)
     if case.get('cc', 'reno') == 'cubic':
         cc = TCPCubic()
